@@ -1575,6 +1575,7 @@ func c08BuildJobs(c *hx.Ctx) []c08Job {
 	b.j2kGridOffsets(seeds)
 	b.j2kPart2(seeds)
 	b.j2kMctStages()
+	b.j2kPacketHeaders()
 	b.jlsScans(seeds)
 	if only := os.Getenv("C08_ONLY"); only != "" { // analysis aid: restrict to some entry points
 		var js []c08Job
